@@ -2,6 +2,7 @@ package main
 
 import (
 	"fmt"
+	"go/token"
 	"go/types"
 	"sort"
 	"strings"
@@ -156,7 +157,7 @@ func ruleNAM1(c *Ctx) {
 func ruleNAM2(c *Ctx) {
 	p := c.P
 	owners := map[string]map[string]bool{
-		"KnowledgeBase.RuleEntries": {"(*ast.KnowledgeBase).AddRuleEntry": true, "(*ast.KnowledgeBase).RemoveRuleEntry": true, "(*ast.KnowledgeLibrary).RemoveRuleEntry": true, "(*ast.KnowledgeBase).Clone": true, "(*ast.Catalog).BuildKnowledgeBase": true},
+		"KnowledgeBase.RuleEntries": {"(*ast.KnowledgeBase).AddRuleEntry": true, "(*ast.KnowledgeBase).RemoveRuleEntry": true, "(*ast.KnowledgeLibrary).RemoveRuleEntry": true, "(*ast.KnowledgeBase).Clone": true, "(*ast.Catalog).BuildKnowledgeBase": true, "(*ast.KnowledgeBase).DiscardRuleEntries": true},
 		"Grl.RuleEntries":           {"(*ast.Grl).ReceiveRuleEntry": true},
 	}
 	fields := map[*types.Var]string{}
@@ -205,6 +206,95 @@ func ruleNAM2(c *Ctx) {
 	for _, k := range ks {
 		c.OK(k+" owners", "-", fmt.Sprintf("%d writes, all inside the owner set", count[k]))
 	}
+	nam2Discard(c)
+}
+
+// nam2Discard (D40): DiscardRuleEntries is the roll-back of a rejected text. It may take out only what that text put
+// in: every delete is behind the equal edge of a comparison of the held entry with the entry it was given (an older
+// rule of the same name stays), it happens under the lock, and the only caller is the builder, on its error path.
+func nam2Discard(c *Ctx) {
+	p := c.P
+	fn := p.Method("ast", "KnowledgeBase", "DiscardRuleEntries")
+	if fn == nil {
+		return // no roll-back in this tree: LDR-5 speaks about what a rejected text leaves behind
+	}
+	re := p.Field("ast", "KnowledgeBase", "RuleEntries")
+	bad := ""
+	n := 0
+	for _, ci := range callsIn(fn) {
+		bi, ok := ci.Common().Value.(*ssa.Builtin)
+		if !ok || bi.Name() != "delete" {
+			continue
+		}
+		if f, _ := fieldLoad(ci.Common().Args[0]); f != re {
+			continue
+		}
+		n++
+		in := ci.(ssa.Instruction)
+		guarded := edgesDominate(fn, in, func(b *ssa.BasicBlock, si int) bool {
+			iff, isIf := b.Instrs[len(b.Instrs)-1].(*ssa.If)
+			if !isIf {
+				return false
+			}
+			bo, isBo := iff.Cond.(*ssa.BinOp)
+			if !isBo || (bo.Op != token.EQL && bo.Op != token.NEQ) {
+				return false
+			}
+			// held entry (a lookup in RuleEntries) against the given entry (an element of the parameter)
+			isHeld := func(v ssa.Value) bool {
+				return derivesFrom(v, func(x ssa.Value) bool {
+					lk, isLk := x.(*ssa.Lookup)
+					if !isLk {
+						return false
+					}
+					f, _ := fieldLoad(lk.X)
+					return f == re
+				})
+			}
+			isGiven := func(v ssa.Value) bool {
+				return len(fn.Params) > 1 && derivesFrom(v, func(x ssa.Value) bool {
+					if nx, isNext := x.(*ssa.Next); isNext {
+						if rg, isRg := nx.Iter.(*ssa.Range); isRg {
+							return unspill(rg.X) == ssa.Value(fn.Params[1])
+						}
+					}
+					return false
+				})
+			}
+			if !((isHeld(bo.X) && isGiven(bo.Y)) || (isHeld(bo.Y) && isGiven(bo.X))) {
+				return false
+			}
+			if bo.Op == token.EQL {
+				return si == 0
+			}
+			return si == 1
+		})
+		if !guarded {
+			bad = "the delete at " + p.InstrPos(in) + " is not behind `held entry == given entry`: a rule that was in the knowledge base before the rejected text, under a name the text used again, is removed with it"
+		}
+		locked := false
+		for _, lc := range findCalls(fn, func(x ssa.CallInstruction) bool { return calleeNameIs(x, "Lock") }) {
+			li := lc.(ssa.Instruction)
+			if (li.Block() == in.Block() && instrIndex(li) < instrIndex(in)) || (li.Block() != in.Block() && li.Block().Dominates(in.Block())) {
+				locked = true
+			}
+		}
+		if !locked && bad == "" {
+			bad = "the delete at " + p.InstrPos(in) + " happens without the knowledge base's lock"
+		}
+	}
+	// callers
+	if node := p.CallGraph().Nodes[fn]; node != nil {
+		for _, e := range node.In {
+			if e.Caller == nil || e.Caller.Func == nil || !fnInModule(e.Caller.Func) {
+				continue
+			}
+			if fnName(e.Caller.Func) != "(*builder.RuleBuilder).BuildRuleFromResource" && bad == "" {
+				bad = "called from " + fnName(e.Caller.Func) + ": only the builder rolls a rejected text back"
+			}
+		}
+	}
+	c.Check(bad == "" && n >= 1, "KnowledgeBase.DiscardRuleEntries / removes only the very entries it is given, under the lock, for the builder", p.Pos(fn.Pos()), fmt.Sprintf("%d delete(s), each behind held == given", n), bad)
 }
 
 func ruleNAM3(c *Ctx) {
@@ -498,7 +588,6 @@ func (c *Ctx) escapedBy(v ssa.Value, sep string) bool {
 	esc := strings.TrimSuffix(to, sep)
 	return m[esc] == esc+esc && !strings.Contains(esc, sep)
 }
-
 
 // nam1EveryParsedEntry: the listener hands every rule entry of the parsed text to KnowledgeBase.AddRuleEntry, which is
 // where a name that is taken becomes an error. A filter in front of that call (same text, same salience, ...) turns a
